@@ -5,9 +5,9 @@ reg("C06",
     quick=dict(defs=dict(NX=2, DMAX=3, WMAX=4), symx=dict(shards=16, **{"max-wall": 900})),
     thorough=dict(defs=dict(NX=3, DMAX=3, WMAX=7), symx=dict(shards=16, **{"max-wall": 3000, "shard-depth": 8})),
     reach=["end", "permuted_order", "identity_permutation", "two_output_ticks", "shared_subexpression", "feedback_delivered",
-           "fan_in_sources_tick_together"],
-    bounds="4 dataflow programs of 5-6 wiring statements (diamond with two recorders; fan-in of two sources plus an independent branch; chain with a "
-           "duplicated sub-expression; feedback loop with recorders on producer and reader) x EVERY admissible permutation of their statements "
+           "fan_in_sources_tick_together", "structural_input_producers_at_different_depths"],
+    bounds="5 dataflow programs of 5-6 wiring statements (diamond with two recorders; fan-in of two sources plus an independent branch; chain with a "
+           "duplicated sub-expression; feedback loop with recorders on producer and reader; one consumer with a structural TSL<TS<Int>,2> input {shallow, deep} whose producers sit at different depths) x EVERY admissible permutation of their statements "
            "(enumerated through the ready set), each permutation wired, built and run next to the reference order on the same script; script sources "
            "with NX emissions (first offset symbolic in [0,DMAX] us, gaps in [1,DMAX] us, values in [-1e6,1e6]); start symbolic in [0,1000] us; "
            "window symbolic in [1,WMAX] us",
